@@ -18,7 +18,7 @@ RULE = ('Typed statement shapes (assignment, compound assignment, index assignme
         'expression statement) over 42 expression node kinds (arithmetic, comparison, in/not in, and, or, unary minus, not, '
         'if-else, the unparenthesised chain a if c else b if c2 else d, calls with 0-3 arguments, method and pipe calls, list '
         'and dict literals, index, four slice forms, a lambda body run twice by map) with a '
-        'logging host probe at every leaf: ALL shapes up to the stated number of internal nodes x ALL truth assignments of '
+        'logging host probe at every leaf: ALL shapes with up to 2 internal nodes (thorough: also every 7th 3-node shape) x ALL truth assignments of '
         'the scalar probes x every choice of one raising probe or none (exhaustive; distinct by construction; the exception '
         'raised is a subclass of TypeError / KeyError / ValueError / IndexError / ZeroDivisionError / AttributeError / Exception in turn), the '
         'non-raising cases again on a parser with a parse cache (one tree evaluated under every assignment), plus '
@@ -449,9 +449,12 @@ def all_cases(sh, raising=True):
 def jobs(tier, seed):
     js = []
     nsh = 16
-    top = 2 if tier == 'quick' else 3
     for i in range(nsh):
-        js.append(('enum', list(range(0, top + 1)), i, nsh, None))
+        js.append(('enum', [0, 1, 2], i, nsh, None))
+    if tier != 'quick':
+        # 3-node shapes (1.5 million): every 7th one, under all truth assignments (raising probes for those at a multiple of 8)
+        for i in range(nsh):
+            js.append(('enum', [3], i, nsh, 7))
     per = 600 if tier == 'quick' else 8000
     for i in range(nsh):
         js.append(('random', core.derive_seed(seed, 'c09', i), per))
@@ -538,8 +541,10 @@ def run_job(job):
 
 
 def finish(stats, tier):
-    top = 2 if tier == 'quick' else 3
-    return {'exhaustive': True,
-            'exhaustive_bound': f'all statement shapes with <= {top} internal nodes under the statement x all truth assignments; x every '
-                                f'single raising probe or none for shapes with <= 2 internal nodes' + (' and for one 3-node shape in eight' if top == 3 else ''),
-            'statement_shapes': {str(n): sum(1 for _ in stmts(n)) for n in range(0, top + 1)}}
+    out = {'exhaustive': True,
+           'exhaustive_bound': 'all statement shapes with <= 2 internal nodes under the statement x all truth assignments x every single '
+                               'raising probe or none (and again on a cached tree without raising probes)',
+           'statement_shapes': {str(n): sum(1 for _ in stmts(n)) for n in range(0, 3)}}
+    if tier != 'quick':
+        out['sampled_beyond_the_bound'] = 'every 7th of the 3-node statement shapes x all truth assignments (raising probes for one in eight of those); Hypothesis shapes with 4+ nodes'
+    return out
